@@ -230,7 +230,10 @@ ValidFixed(n, f) == /\ \A j \in 1..Len(f) : f[j] \in 0..(n - 2)
 (* constraints are scale-free (signs, order, counts, unit norm, unit max) or have absolute radii    *)
 (* (simplex, l1 ball), so the feasibility predicates do not change with the units of the data.      *)
 (* float32 only with scales that keep every Gram product inside the float32 range.                  *)
-RunScales == {0, -70, -30, 40, -1060, 1000}   \* 2^-1060: EVERY entry subnormal (<= ~1e-316); 2^1000: top of the float64 range
+RunScales == {0, -70, -30, 40, -1060, 500}
+\* 2^-1060: EVERY entry subnormal (<= ~1e-316).  2^500: the largest regime whose SQUARES (2^1000 < 2^1024)
+\* stay inside float64 -- the property does not promise more range than the arithmetic has (a norm of
+\* entries beyond ~1e154 is inf in NumPy itself), so nothing larger is in the domain.
 RunDtypes == {"float64", "float32"}
 ValidValues(r) == /\ r.scale \in RunScales /\ r.dtype \in RunDtypes
                   /\ (r.dtype = "float32" => r.scale \in {0, -30})
@@ -238,7 +241,7 @@ ValidValues(r) == /\ r.scale \in RunScales /\ r.dtype \in RunDtypes
 \* underflow to exactly 0 and the unit-norm / unit-max kinds then have no representative (0/0).  In
 \* this regime only, a non-finite returned factor is a numerical break-down without obligation.
 UnderflowRegime(r) == \/ r.dtype = "float32" /\ r.scale < 0
-                      \/ r.scale <= -1000 \/ r.scale >= 1000      \* float64 at the ends of its range: same rule
+                      \/ r.scale <= -1000 \/ r.scale >= 500       \* float64 at the ends of its range: same rule
 \* parameter shifts for SEQUENCES of decompositions run back to back in one process: the same
 \* keywords, forms and modes with the numeric parameters p, p+2, p+4 in some order -- every member
 \* is judged by ITS OWN specification (nothing may survive from an earlier call)
